@@ -309,4 +309,28 @@ def rule_nl(ctx, prop):
                                       f"format_token does not trim the {v} text: trailing whitespace / a stray carriage "
                                       f"return of a CRLF file reaches the output", ft.loc(s_["sp"]), cfg)
             rep.anchor(seen9 == {"SingleLineComment", "Shebang"}, f"format_token rebuilds SingleLineComment and Shebang ({sorted(seen9)})", cfg)
+        # (10) who sanitises trivia taken from the input: the formatters that pass tokens through format_token /
+        # load_token_trivia on the current tree still do (comments moved behind a table comma are re-formatted there: without
+        # it a CRLF file keeps `\r` in front of the configured line ending). Reference through time, by enclosing function.
+        SANITISERS = {
+            "formatters::general::format_token": {"formatters::general::format_token_reference",
+                                                  "formatters::general::load_token_trivia",
+                                                  "formatters::table::format_multiline_table"},
+            "formatters::general::load_token_trivia": {"formatters::general::format_end_token", "formatters::general::format_eof",
+                                                       "formatters::general::format_symbol",
+                                                       "formatters::general::format_token_reference"},
+        }
+        for san, want in SANITISERS.items():
+            have = {g.path.split("::{closure")[0] for g, b_, t_ in call_sites(prog, "^" + re.escape(san) + "$", "stylua_lib")}
+            for w in sorted(want):
+                if prog.fn("stylua_lib", w) is None:
+                    continue       # the function is gone: not decided
+                ok = w in have
+                rep.inst(f"stylua_lib::{w} passes input trivia through {san.split('::')[-1]}", None, cfg, ok=ok)
+                if not ok:
+                    rep.violation(f"stylua_lib::{w} no-longer-sanitises-through {san.split('::')[-1]}",
+                                  f"{w} used to hand the trivia it moves to {san.split('::')[-1]} (which trims a comment's trailing "
+                                  f"whitespace / carriage return and converts block-comment line endings) and no longer does: raw "
+                                  f"input trivia reaches the output, e.g. a stray `\r` before the configured line ending for CRLF "
+                                  f"input", prog.fn("stylua_lib", w).loc(), cfg)
     return rep
